@@ -112,6 +112,10 @@ func oracleC07(f *sessionFam, w *World, res *Result) []Violation {
 				case outstanding == nil && answered != nil && lastAccept == answered.t+pt && closeEv.T == lastAccept:
 					// exact tie: the pong was processed at the very deadline instant; both outcomes are accepted
 					w.probe("pong_at_exact_deadline")
+				case outstanding == nil && appCloseBefore(w, a, closeEv.Seq):
+					// a graceful Close is waiting for the client's next poll: no ping is created in state
+					// 'closing' but the heartbeat deadline still bounds the wait (C12's clause, not this one)
+					w.probe("ping_timeout_while_closing")
 				case outstanding == nil:
 					l.add("responsive-peer-never-timed-out", "", fmt.Sprintf("%s [%s]: closed for ping timeout at %v although every ping had been answered (last pong accepted at %v)", a, ctx, closeEv.T, lastAccept))
 				case closeEv.T < outstanding.t+pt:
@@ -205,4 +209,14 @@ func simEnd(w *World) time.Duration {
 		return 0
 	}
 	return w.Evs[len(w.Evs)-1].T
+}
+
+// appCloseBefore reports whether the application called Close on the session before event seq.
+func appCloseBefore(w *World, a string, seq int) bool {
+	for _, e := range w.evs(a, "app-close") {
+		if e.Seq < seq {
+			return true
+		}
+	}
+	return false
 }
